@@ -5,15 +5,40 @@ import cybuild
 TITLE = "prange gives sequential results and a safe exit on every schedule"
 EXTRACTS = ["Prange", "PrangeShare"]
 RULE = ("(range triple, thread count, schedule, chunk) configurations; bodies with + * ^ | & reductions, lastprivate, "
-        "raise / break / return in chosen iterations; OpenMP build run with 1..8 threads; distinct by configuration")
+        "raise / break / return in chosen iterations; OpenMP build run with 1..8 threads; distinct by configuration. "
+        "Sharing part (props/C37_share.py): loop bodies generated as data in the modelled statement language "
+        "(plain / in-place assignment with each of + * - & ^ | << >> //, if/else, nested range and prange loops, "
+        "optional enclosing parallel block with block privates; C types long / int / unsigned int / unsigned long / "
+        "double / float) - one fixed family covering every operator x every variable role and seeded random "
+        "well-formed bodies - each run over thread counts 1,2,3,4,7(,5,8,16) x iteration counts 0,1,2,t-1,t,t+1,2t+1,23 x "
+        "step signs x chunk sizes x schedules none/static/dynamic/guided x use_threads_if; distinct by (function, call)")
 EXPLANATION = ("theorems: the generated nsteps/index computation enumerates exactly range(start,stop,step) (|step| within C int); "
                "lastprivate = last iteration; reductions over any commutative monoid are independent of partition/permutation/"
                "combination order (instantiated for + * & | ^), with wrap-around transfer lemmas for + and *; exception hand-off "
                "for every number of threads and interleaving: first fetched exception is re-raised, every raised exception is "
-               "re-raised or released exactly once, errors win the exit dispatch. partial: OpenMP's memory model (flushes, "
-               "privatisation, data races) and libgomp are outside the model; they are exercised by the differential run only.")
-TRUSTED = ["gcc -fopenmp / libgomp", "atomicity of fetch_parallel_exception under the GIL (modelled as one step)"]
-ASSUMPTIONS = ["|step| <= INT_MAX for the count theorem before the abs() repair", "integer index types do not overflow in stop-start+step"]
+               "re-raised or released exactly once, errors win the exit dispatch. Sharing classification: a Gallina model of "
+               "MarkParallelAssignments / the FlowControl reduction-read check / analyse_sharing_attributes / the nested-prange "
+               "merge / generate_loop's clause choice (operator string +*-&^|) gives the clause of every name and the front-end "
+               "errors; C37_sharing_any_schedule / C37_region_any_schedule: for every body that passes the executable "
+               "well-formedness check under that classification, EVERY distribution of the iterations among threads, any order "
+               "inside a thread and any combining order leaves in every reduction variable (all six operators, - combined with +, "
+               "wrap-around w-bit signed or unsigned), every lastprivate assigned on every path and every clause-less variable "
+               "the value of the sequential loop; C37_combiner_laws gives the monoid/action laws per operator. Ties: the "
+               "operator string is read from Nodes.py, the clauses of every compiled loop are parsed from the #pragma omp lines "
+               "of the generated C and compared with the model, the compiled result is compared with the extracted parallel "
+               "semantics run on the thread partition observed through threadid(), and with a sequential Python interpretation. "
+               "Four accepted body forms are classified unsoundly (C37_*_refuted, known findings, repairs proposed for three). "
+               "partial: OpenMP's memory model (flushes, privatisation, data races) and libgomp are outside the model; they are "
+               "exercised by the differential run only. Floating accumulators are outside the theorem (no associativity): the "
+               "harness uses exactly representable values. That every uniformly used name passes the well-formedness check is "
+               "not a theorem: it is evaluated by the extracted checker for every generated body.")
+TRUSTED = ["gcc -fopenmp / libgomp (clause semantics: reduction initialiser/combiner, lastprivate = sequentially last iteration, "
+           "firstprivate) as transcribed in M_PrangeShare.v par_exec",
+           "atomicity of fetch_parallel_exception under the GIL (modelled as one step)",
+           "threads execute the iterations handed to them in increasing order (used to replay the observed partition)",
+           "gcc -fwrapv for signed wrap-around in the generated accumulators"]
+ASSUMPTIONS = ["|step| <= INT_MAX for the count theorem before the abs() repair", "integer index types do not overflow in stop-start+step",
+               "all variables of a modelled body share one C integer type of width >= 2; initial values representable"]
 
 SRC = r'''# cython: language_level=3
 cimport cython
